@@ -62,6 +62,7 @@ func C01(c *Ctx) {
 	r.MinRule("C01-c", 18)
 	c01dLowering(c)
 	basicLatinCaseClosure(c, "C01-d")
+	builderPairing(c, "C01-d")
 }
 
 // c01a: fail => pt=Entry, counters balanced.
